@@ -343,6 +343,9 @@ class Check:
             self.violations.append((key, what, rp))
 
     def finish(self):
+        if os.environ.get('VERIF_PREBUILD') == '1':      # setup run: only the caches matter
+            print(f'[{self.pid}] prebuilt ({time.time() - self.t0:.0f}s)')
+            return 0
         wall = time.time() - self.t0
         c = self.cov
         c['inconclusive'] = self.inconclusive[:50]
